@@ -125,7 +125,13 @@ pub fn install_quiet_panic_hook() {
     ONCE.call_once(|| {
         let default = std::panic::take_hook();
         std::panic::set_hook(Box::new(move |info| {
-            if std::env::var_os("AXMC_PANIC_VERBOSE").is_some() {
+            // panics inside contract code are caught by the host and are ordinary rejections;
+            // panics of the harness itself (paths relative to this crate) are always shown
+            let in_harness = info
+                .location()
+                .map(|l| l.file().starts_with("src/") && !l.file().ends_with("aux.rs"))
+                .unwrap_or(false);
+            if in_harness || std::env::var_os("AXMC_PANIC_VERBOSE").is_some() {
                 default(info);
             }
         }));
